@@ -968,6 +968,14 @@ def check_after_optimize(ctx, case, si, o, pb, variables, log, x0, xs, fstar, va
             fk = 'nan-poisoned-lens'
         elif x0_logged and hits and pair_ok:
             fk = 'scipy-worse-than-start'      # scipy saw f(x0) and still returned a worse evaluated point
+        elif hits and pair_ok and case.get('front') == 'least_squares' and any(
+                (lo is not None and abs(x - lo) <= 1e-6 * max(1.0, abs(lo))) or
+                (hi is not None and abs(x - hi) <= 1e-6 * max(1.0, abs(hi)))
+                for (lo, hi), x in zip([v.bounds for v in pb.variables], x0)):
+            # x0 sits on a bound (the usual state after a bounded run): least_squares first moves it strictly inside
+            # the bounds and never evaluates the start itself; the point it returns is the best one it evaluated,
+            # marginally worse than f(x0), and the front end does not compare (same defect, F-C14-4)
+            fk = 'scipy-worse-than-start'
         ctx.fail('the returned objective is not worse than at the start', case,
                  {'step': si, 'result.fun': fstar, 'x0': x0, 'result.x': xs}, f_start, finding_key=fk)
     else:
